@@ -88,7 +88,8 @@ def gen_regs(rng):
                     regs.append(("REG str %s 0 %s" % (path, pct(rng.choice([None, b"", b"dflt", b"v1"]))), path, "str"))
                 elif kind == "list":
                     d = rng.choice([[], [b"d1"], [b"d1", b"d2"], [b"a", b"b"]])
-                    regs.append(("REG list %s %d %s" % (path, len(d), " ".join(pct(x) for x in d)), path, "list"))
+                    # (either of the two registration functions: the vector one and its variadic twin)
+                    regs.append(("REG %s %s %d %s" % (rng.choice(["list", "listv"]), path, len(d), " ".join(pct(x) for x in d)), path, "list"))
                 else:
                     regs.append(("REG inaddr %s %s %s" % (path, pct(rng.choice([None, b"dh", b"h1"])), pct(rng.choice([None, b"ds", b"80"]))), path, "inaddr"))
     rng.shuffle(regs)
